@@ -5,7 +5,7 @@ import itertools
 import math
 from fractions import Fraction
 
-from ..core import Sub, fail, isnum, jkey, enc
+from ..core import Sub, fail, isnum, jkey, enc, scale
 from .. import formula as F
 
 SEP = '<,>'
@@ -626,4 +626,72 @@ class CellCase(Sub):
         return None
 
 
-SUBS = [Numbers(), Strings(), Whitespace(), Accepted(), Blanks(), Arrays(), CellCase()]
+
+class LexScale(Sub):
+    name = 'c05.scale'
+    rule = ('size ladder n: an integer literal of n digits (n <= 4096; two digit patterns) and a decimal with n fraction digits '
+            'evaluate to exactly the number spelled; a quoted literal of n characters (ASCII, quotes of the other kind, spaces, a '
+            'non-ASCII letter) to exactly those characters; n blanks between tokens and n arguments in each separator style change '
+            'nothing; a call with n slots, every other one omitted, passes n arguments; an array literal of n items is that flat '
+            'list; non-trivial = all')
+    min_cases = 40
+    min_nontrivial = 40
+
+    def cases(self, tier, unit):
+        for n in scale(tier, 4096):
+            yield [n]
+
+    def check(self, env, case):
+        from fractions import Fraction
+        n = case[0]
+        env.nt()
+        out = []
+
+        def bad(msg, want, got):
+            out.append(fail('size %d: %s' % (n, msg), repr(want)[:200], repr(got)[:200]))
+        for pat in ('1234567890', '9'):
+            digits = (pat * (n // len(pat) + 1))[:n]
+            o = env.evo(digits)
+            v = env.dec(o[1]) if o[0] == 'v' else None
+            if o[0] != 'v' or isinstance(v, bool) or not isinstance(v, (int, float)) or (
+                    v != int(digits) if isinstance(v, int) else (n <= 15 or float(int(digits)) != v)):
+                bad('the %d-digit literal %s... evaluates to %s' % (n, digits[:12], repr(o)[:60]), int(digits), o)
+            if n <= 300:
+                f = '0.' + digits
+                o = env.evo(f)
+                if o[0] != 'v' or not isinstance(o[1], float) or abs(Fraction(o[1]) - Fraction(f)) > Fraction(f) / 2 ** 52:
+                    bad('the literal 0.%s... with %d fraction digits evaluates to %s' % (digits[:12], n, repr(o)[:60]), float(Fraction(f)), o)
+        ALPHA9 = "ab'c d\u00e9,;"
+        for body in (''.join(ALPHA9[i % len(ALPHA9)] for i in range(n)), ' ' * n):
+            o = env.evo('"%s"' % body)
+            if o != ['v', body]:
+                bad('a quoted literal of %d characters evaluates to %s' % (n, repr(o)[:80]), body, o)
+            o = env.evo('LEN("%s")&"|"&RIGHT("%s",1)' % (body, body))
+            if o != ['v', '%d|%s' % (n, body[-1:])]:
+                bad('LEN and RIGHT of a quoted literal of %d characters give %s' % (n, repr(o)[:80]), '%d|%s' % (n, body[-1:]), o)
+        sp = ' ' * n
+        o = env.evo('1%s+%s2%s*%s3' % (sp, sp, sp, sp))
+        if o != ['v', 7]:
+            bad('1 + 2 * 3 with %d blanks between the tokens gives %r' % (n, o), 7, o)
+        o = env.evo('REC(%s1%s,%s2%s)' % (sp, sp, sp, sp), funcs={'REC': rec_fn})
+        if o != ['v', ['REC', 1, 2]]:
+            bad('REC( 1 , 2 ) with %d blanks around the arguments gives %s' % (n, repr(o)[:80]), ['REC', 1, 2], o)
+        if n <= 1025:
+            for sep in STYLES:
+                args = sep.join(str(i) for i in range(n))
+                o = env.evo('REC(%s)' % args, funcs={'REC': rec_fn})
+                if o != ['v', ['REC'] + list(range(n))]:
+                    bad('a call with %d arguments separated by %r passes %s' % (n, sep, repr(o)[:80]), n, o)
+                o = env.evo('{%s}' % args)
+                if o != ['v', list(range(n))]:
+                    bad('an array literal of %d items separated by %r is %s' % (n, sep, repr(o)[:80]), n, o)
+                if n >= 3:
+                    slots = sep.join(str(i) if i % 2 == 0 else '' for i in range(n))
+                    o = env.evo('REC(%s)' % slots, funcs={'REC': rec_fn})
+                    want = ['REC'] + [i if i % 2 == 0 else None for i in range(n)]
+                    if o[0] == 'v' and o[1] != want:
+                        bad('a call with %d slots, every other one omitted (%r), is accepted and passes %s' % (n, sep, repr(o)[:80]), want[:8], o)
+        return out[:3]
+
+
+SUBS = [Numbers(), Strings(), Whitespace(), Accepted(), Blanks(), Arrays(), CellCase(), LexScale()]
